@@ -95,3 +95,7 @@ pub fn shell_absolute_path_str(shell: &Shell, s: &str) -> (r: PathBuf)
     ensures r.text() == resolve(shell.cwd(), s@), s@.len() > 0 ==> is_abs(r.text())
 { unimplemented!() }
 pub fn new_open_options() -> (r: OpenOptions) ensures r == no_flags() { OpenOptions { read: false, write: false, append: false, truncate: false, create: false, create_new: false } }
+// Option::or_else(o, f): o when it is Some, else what f returns (std documented behaviour).  ASSUMED.
+pub assume_specification<T, F: FnOnce() -> Option<T>> [Option::<T>::or_else] (o: Option<T>, f: F) -> (r: Option<T>)
+    requires o is None ==> f.requires(()),
+    ensures o is Some ==> r == o, o is None ==> f.ensures((), r);
